@@ -6,11 +6,11 @@ from lib import driver
 from lib.rec import Rec
 
 LEVEL = "exploration"
-RULE = ("G2: typed Sids (concrete and search) of every configured type, stratified by type x search-mask, built by natural "
-        "typing from strings sampled from the per-key value sets; each is rebuilt through uri, >=3 shuffled field dicts, "
-        "query (when values are query-safe), eval(repr()) and copy(); canonical string checked against R2 render; the "
-        "equality law is checked on all pairs inside batches of 120 Sids that include forced-type same-string Sids. "
-        "Non-trivial = distinct typed uri; the M-sid monitor (C01 oracle) stays installed.")
+RULE = ('G2: typed Sids (concrete and search) of every configured type, stratified by type x search-mask, built by natural typing from strings '
+        'sampled from the per-key value sets; each is rebuilt through uri, >=3 shuffled field dicts, query (when values are query-safe), '
+        'eval(repr()) and copy(); canonical string checked against R2 render; the equality law is checked on all pairs inside batches of 120 '
+        'Sids that include forced-type same-string Sids. Before 8 % of the cases a Sid with the same type and fields but another string '
+        '(carrying a refused query) is built first. Non-trivial = distinct typed uri; the M-sid monitor (C01 oracle) stays installed.')
 ASSUME = ["query round trip only judged for values that are free of whitespace and of & = % + # ? ~ ;",
           "Sid(fields=...) of a Sid whose type was FORCED by a uri away from its natural type is not judged (quantifier: natural typing)"]
 BUDGET = {"quick": 24000, "thorough": 1600000}
